@@ -858,6 +858,7 @@ type c16B struct {
 	whole map[string][]string    // kind -> whole-file targets created
 	comps map[string][][2]string // kind -> (doc, name) components created
 	over  bool                   // tape exhausted at least once
+	pathSchema bool              // the root has /y with an inline response schema that can be referenced by pointer
 	inner   []string             // whole-file schema targets that have a referable inner element
 	overN   int                  // arity of the first decision asked after the end of the tape
 	top     bool                 // the slot being filled is a root component
@@ -1010,7 +1011,8 @@ func (b *c16B) slot(kind, file string, depth int) any {
 					dir = "common/"
 				}
 			}
-			target = base + dir + fmt.Sprintf("%s%d.json", kind[:3], b.next())
+			ext := []string{".json", ".v1.json", ".yaml"}[b.choose(3)]
+			target = base + dir + fmt.Sprintf("%s%d%s", kind[:3], b.next(), ext)
 			b.whole[kind] = append(b.whole[kind], target)
 			b.files[target] = "pending"
 			b.files[target] = b.val(kind, target, depth-1)
@@ -1053,6 +1055,14 @@ func (b *c16B) slot(kind, file string, depth int) any {
 			b.files[target] = map[string]any{"type": "object", "properties": map[string]any{"id": b.val("schemas", target, 0)}}
 			b.inner = append(b.inner, target)
 			b.whole["schemas"] = append(b.whole["schemas"], target)
+			// a whole-document reference next to the element reference into the same file: as a root component
+			// (sorting before or after every generated name) or not at all
+			switch b.choose(3) {
+			case 1:
+				b.setComp(b.root, "schemas", fmt.Sprintf("Zrec%d", b.next()), map[string]any{"$ref": b.spell(b.root, target)})
+			case 2:
+				b.setComp(b.root, "schemas", fmt.Sprintf("Arec%d", b.next()), map[string]any{"$ref": b.spell(b.root, target)})
+			}
 		}
 		return map[string]any{"$ref": b.spell(file, target) + "#/properties/id"}
 	case 5: // reference back into the root document's components
@@ -1074,7 +1084,7 @@ func (b *c16B) val(kind, file string, depth int) any {
 	case "schemas":
 		shape := 0
 		if depth > 0 {
-			shape = b.choose(7)
+			shape = b.choose(8)
 		} else {
 			shape = b.choose(2)
 		}
@@ -1100,6 +1110,12 @@ func (b *c16B) val(kind, file string, depth int) any {
 			b.noReuse = 0
 			return map[string]any{"type": "object", "additionalProperties": b.slot("schemas", file, depth),
 				"properties": map[string]any{"id": map[string]any{"type": "string", "maxLength": n}}}
+		case 6:
+			// a reference into the document's own paths section (internal, but not under #/components)
+			if file == b.root && b.pathSchema {
+				return map[string]any{"type": "object", "properties": map[string]any{"viaPaths": map[string]any{"$ref": "#/paths/~1y/get/responses/200/content/application~1json/schema"}}}
+			}
+			fallthrough
 		default: // reference to something that already exists (possibly an ancestor: a cycle)
 			if l := b.comps["schemas"]; len(l) > 0 {
 				e := l[b.choose(len(l))]
@@ -1188,6 +1204,11 @@ func (b *c16B) build(depth int) {
 	b.defs = []string{b.root}
 	paths := map[string]any{}
 	rootDoc["paths"] = paths
+	if b.choose(3) == 1 {
+		b.pathSchema = true
+		paths["/y"] = map[string]any{"get": map[string]any{"responses": map[string]any{"200": map[string]any{"description": "y",
+			"content": map[string]any{"application/json": map[string]any{"schema": map[string]any{"type": "string", "maxLength": 40 + b.next()}}}}}}}
+	}
 	// focus: which kind gets a top-level component slot (besides what the path item needs)
 	nTop := 1 + b.choose(2)
 	if b.r != nil {
